@@ -226,6 +226,11 @@ func fieldString() string {
 	ap := pick([]string{"'", "'", "'", "", "''", ":"})
 	tzm := pick([]string{"00", "30", "59", "60", "45", "-30", "+30", " 5", "5", "", "99", "-99999", "000000000000000000000030", "-0"})
 	tail := pick([]string{"'", "'", "", "'x", "''", "'00", "\x00", "'\x00\x00", " "})
+	if strings.HasPrefix(sg, "Z") && r.Rand.Intn(2) == 0 {
+		// Z forms are only accepted with zero fields: keep them frequent
+		tzh = pick([]string{"00", "0", "24", "48", " 0", "000"})
+		tzm = pick([]string{"00", "0", "", "-0", "01"})
+	}
 	parts := []string{"D:", y, mo, d, h, mi, se, sg, tzh, ap, tzm, tail}
 	// cut after a random number of parts now and then (short forms)
 	if r.Rand.Intn(3) == 0 {
